@@ -402,7 +402,17 @@ func (e *SpecEnv) ex(x *SpecExpr, inOld bool) Val {
 			e.vars[v.Name] = Val{nm, t, k}
 			_ = guards
 		}
+		sideStart := len(e.side)
 		body := e.ex(x.Args[0], inOld)
+		// side facts (instantiated posts of pure functions) that mention a bound variable hold for every value of it
+		for i := sideStart; i < len(e.side); i++ {
+			for _, v := range x.Vars {
+				if strings.Contains(e.side[i], sanitize(v.Name)+"$q") {
+					e.side[i] = "(forall (" + strings.Join(binds, " ") + ") " + e.side[i] + ")"
+					break
+				}
+			}
+		}
 		var trig string
 		for _, tg := range x.Trig {
 			tv := e.ex(tg, inOld)
@@ -839,6 +849,9 @@ func (e *SpecEnv) call(x *SpecExpr, inOld bool) Val {
 		if len(args) != len(pr.Params) {
 			e.fail("pred %s: expected %d arguments", name, len(pr.Params))
 		}
+		if pr.RetTy != "" && e.heapFreeFn(pr) {
+			return e.applyDeclaredFn(pr, args, inOld)
+		}
 		for _, s := range e.predStack {
 			if s == pr.Pkg+"."+pr.Name {
 				e.fail("recursive pred %s is not supported by inlining", name)
@@ -891,6 +904,14 @@ func (e *SpecEnv) call(x *SpecExpr, inOld bool) Val {
 			rn = n
 		}
 		sub.vars[rn] = res
+		if len(con.Results) == 1 {
+			sub.vars[con.Results[0]] = res
+		}
+		if len(con.Params) == len(av) {
+			for i, pn := range con.Params {
+				sub.vars[pn] = av[i]
+			}
+		}
 		sub.vars["r0"] = res
 		sub.vars["result"] = res
 		var pres, posts []string
@@ -1025,4 +1046,76 @@ func (e *SpecEnv) heapFact(st *State, v Val) {
 	if f := e.vc.typeFactsIn(st, v); f != "true" {
 		e.side = append(e.side, f)
 	}
+}
+
+// heapFreeFn: a spec function over scalars whose body reads no heap: emitted once as a declared SMT function with a
+// defining axiom (triggered on applications) instead of being inlined - large tables stay out of quantifier bodies.
+func (e *SpecEnv) heapFreeFn(pr *Pred) bool {
+	for _, p := range pr.Params {
+		switch p.Type {
+		case "int", "rune", "bool", "byte", "string":
+		default:
+			return false
+		}
+	}
+	var ok func(x *SpecExpr) bool
+	ok = func(x *SpecExpr) bool {
+		switch x.Op {
+		case "id", "int", "str":
+			return true
+		case "bin", "un", "ite":
+			for _, a := range x.Args {
+				if !ok(a) {
+					return false
+				}
+			}
+			return true
+		case "call":
+			if x.Args[0].Op != "id" {
+				return false
+			}
+			q := e.lookupPred(x.Args[0].Name)
+			if q == nil || q == pr || q.RetTy == "" || !e.heapFreeFn(q) {
+				return false
+			}
+			for _, a := range x.Args[1:] {
+				if !ok(a) {
+					return false
+				}
+			}
+			return true
+		}
+		return false
+	}
+	return ok(pr.Body)
+}
+
+func (e *SpecEnv) applyDeclaredFn(pr *Pred, args []*SpecExpr, inOld bool) Val {
+	vc := e.vc
+	name := "fn$" + sanitize(pr.Pkg+"."+pr.Name)
+	sub := &SpecEnv{vc: vc, vars: map[string]Val{}, cur: e.cur, old: e.old, pkg: vc.eng.pkgByName(pr.Pkg), depth: 1000, witFn: e.witFn}
+	if sub.pkg == nil {
+		sub.pkg = e.pkg
+	}
+	rt, rk := sub.specType(pr.RetTy)
+	if !vc.sorts.extraSeen[name] {
+		var binds, sorts, names []string
+		for i, p := range pr.Params {
+			t, k := sub.specType(p.Type)
+			nm := fmt.Sprintf("x%d$f", i)
+			binds = append(binds, "("+nm+" "+k+")")
+			sorts = append(sorts, k)
+			names = append(names, nm)
+			sub.vars[p.Name] = Val{nm, t, k}
+		}
+		vc.sorts.declareFun(name, "("+strings.Join(sorts, " ")+") "+rk)
+		body := sub.ex(pr.Body, false)
+		app := sx(name, names...)
+		vc.sorts.rawDecl("def$"+name, "(assert (forall ("+strings.Join(binds, " ")+") (! (= "+app+" "+body.S+") :pattern ("+app+"))))")
+	}
+	var ts []string
+	for _, a := range args {
+		ts = append(ts, e.ex(a, inOld).S)
+	}
+	return Val{sx(name, ts...), rt, rk}
 }
